@@ -214,6 +214,9 @@ def run_term(c, ids):
         elif o[0] == "e":
             h = c["heads"][o[1]]
             ops.append("SetElig (%s,%s) %s" % (cN(h[0]), cN(h[1]), "true" if o[2] else "false"))
+        elif o[0] == "q":
+            h = c["heads"][o[1]]
+            ops.append("SetPolicy (%s,%s) %s" % (cN(h[0]), cN(h[1]), c_pol(o[2])))
     return "%s rt_case %s [%s] [%s] [%s]" % (envs, tbl, ";".join(cN(w) for w in c["worlds"]), heads, ";".join(ops))
 
 
@@ -350,6 +353,10 @@ def gen_rt(rng, tier, nmax=6):
         ops.insert(rng.randint(0, len(ops)), ("e", h, 0))
         if rng.random() < 0.7:
             ops.insert(rng.randint(0, len(ops)), ("e", h, 1))
+    # policy changes between passes (echo_verif hook verif_set_head_inbox_policy), with envelopes pending
+    if rng.random() < 0.45:
+        for _ in range(rng.choice([1, 1, 2, 3])):
+            ops.insert(rng.randint(0, len(ops)), ("q", rng.randrange(len(heads)), gen_pol(rng, kinds, n)))
     ops += [("p",)] * rng.choice([0, 1, 2])
     return {"mode": "rt", "worlds": worlds, "heads": heads, "intents": intents, "ops": ops,
             "perms": "all" if tier == "thorough" or rng.random() < 0.5 else "12", "seed": rng.getrandbits(32)}
@@ -504,8 +511,8 @@ def run(tier, seed, replay=None):
         "SchedulerCoordinator::super_tick + vm_compute of the model with a hash table of real BLAKE3 digests of the model's preimages",
         "not modelled: engine rule execution, provenance, receipt correlation, ticketed ingress, restore_* (exercised only, "
         "mode=restart), fault/rollback paths (C09), WAL recovery (C10); admit_partitioned is modelled and proved about but is "
-        "pub(crate) and not exercised; no public API changes the policy of a registered head, so policy changes between passes are "
-        "exercised on bare HeadInbox values (mode=ib) and only modelled at runtime level",
+        "pub(crate) and not exercised; runtime-level policy changes between passes go through the echo_verif hook "
+        "WorldlineRuntime::verif_set_head_inbox_policy (HeadInbox::set_policy on a registered head) and are tied to the model's SetPolicy",
     ]
     r.cov["trusted_base"] = ["coqc 8.16.1 kernel + vm_compute", "python generator/renderer props/c08.py",
                              "harness c08.rs (abstraction: dispositions/pending/batches -> canonical line; pending read through "
@@ -613,7 +620,7 @@ def run(tier, seed, replay=None):
     r.cov["distinct_nontrivial"] = len(nontriv)
     r.cov["rule"] = ("scripted cases (runtime mode: 1-2 worldlines, 1-4 heads incl. invalid registrations, default/named/exact "
                      "routing incl. unresolvable targets, accept-all / kind-filter / budget 0..n+1 policies, causal parents, "
-                     "respelled duplicates, retries, passes and eligibility changes interleaved; inbox mode: bare HeadInbox with "
+                     "respelled duplicates, retries, passes, eligibility and policy changes interleaved; inbox mode: bare HeadInbox with "
                      "policy changes between admits; exhaustive pass placements) run through harness and Coq model; non-trivial "
                      "= >=2 intents and >=1 pass; every case is re-run by the harness under all (product of window factorials "
                      "<=720) or sampled arrival orders, retry insertions and equivalent target spellings; restart cases "
@@ -677,9 +684,10 @@ MANIFEST = {
              "byte-for-byte against the model's on every case); harness c08.rs; blake3 crate. Modelled rather than verified: "
              "head_inbox.rs, the ingress slice of coordinator.rs, committed_ingress, commit_with_state dedupe as Gallina functions. "
              "Not modelled (exercised only): engine rule execution, provenance, receipt correlation, ticketed ingress, restore_* "
-             "(WAL recovery is C10, rollback is C09). admit_partitioned is pub(crate): modelled and proved about, not exercised. No "
-             "public API changes the policy of a registered head: policy changes between passes are exercised on bare HeadInbox "
-             "values and only modelled at runtime level. Refuted and documented: the id is not injective across the two domains "
+             "(WAL recovery is C10, rollback is C09). admit_partitioned is pub(crate): modelled and proved about, not exercised. Policy "
+             "changes of a registered head between passes (pending envelopes, budgets 0..n+1, kind filters) use the echo_verif hook "
+             "WorldlineRuntime::verif_set_head_inbox_policy and are compared with the model's runtime-level SetPolicy; bare HeadInbox "
+             "values are exercised as well. Refuted and documented: the id is not injective across the two domains "
              "for hand-made kinds (id_cross_domain_alias_refuted, replayed: equal real ids); the id does not cover the routing "
              "target and first-wins keeps an order-dependent retained envelope (ingest_target_spelling_refuted, DESIGN F11) - "
              "observable only in retained envelope material, never in commits/receipts/state roots (measured on every run). Known "
